@@ -232,6 +232,13 @@ def C10(tier, seed):
     return p
 
 
+def wider_job(tier, seed):
+    """worlds of the wider specification (behaviour beyond the listed properties, see WpTrace): pools that inherit the non-transferable-position
+    requirement from token badges, every way of opening a position on them, bundles with metadata, the reward-authority-space migration; the
+    property's own predicates are evaluated on these executions like on any other, the wider ones are tallied and reported only"""
+    return {"name": "wider", "args": ["wider", "--seed", str(seed * 100 + 91), "--worlds", "2" if tier == "quick" else "12"]}
+
+
 def C18(tier, seed):
     n = "300" if tier == "quick" else "6000"
     gen = [{"name": "life_paths", "module": "LifecycleModel", "cfg": "LifecycleModel.cfg", "extra": ["-simulate", f"num={n}", "-depth", "12", "-seed", str(seed)]}]
@@ -242,6 +249,7 @@ def C18(tier, seed):
     jobs += hist_jobs("hist_spl_", seed, 2 if tier == "quick" else 8, 4 if tier == "quick" else 40, 150, "spl", ["--rewards", "1"])
     jobs += matrix_jobs("matrix_", tier, seed, "0", "0", 0, 0, shards_q=1, shards_t=1)
     jobs.append({"name": "bundle_sweep", "args": ["life", "--seed", str(seed * 100 + 77), "--sweep", "48" if tier == "quick" else "256"]})
+    jobs.append(wider_job(tier, seed))
     return {"active": ["C18"], "drivers": jobs, "gen": gen,
             "models": [{"name": "LifecycleModel", "module": "LifecycleModel", "cfg": "LifecycleModel_mc.cfg", "timeout": 1200}],
             "must_exercise": {"lock_position": 5, "transfer_locked_position": 3, "reset_position_range": 5, "close_position": 5, "open_bundled_position": 3, "close_bundled_position": 3,
@@ -261,6 +269,7 @@ def C19(tier, seed):
     jobs += matrix_jobs("matrix_", tier, seed, "0", "0", 0, 0, shards_q=1, shards_t=2)
     jobs += hist_jobs("hist_spl_", seed, 2 if tier == "quick" else 8, 4 if tier == "quick" else 40, 150, "spl")
     jobs += hist_jobs("hist_af_", seed, 1 if tier == "quick" else 4, 4 if tier == "quick" else 40, 150, "t22", ["--adaptive", "1"])
+    jobs.append(wider_job(tier, seed))
     return {"active": ["C19"], "drivers": jobs, "gen": gen, "models": [], "exhaustive": tier != "quick",
             "must_exercise": {"initialize_pool_v2": 20, "initialize_reward_v2": 10, "initialize_pool_with_adaptive_fee": 5, "set_fee_rate": 3, "set_protocol_fee_rate": 3, "swap": 20},
             "explanation": "TLC enumerates Token-2022 mint shapes (ordered extension sequences up to length 3 incl. account-level, group and unknown types; freeze authority; default account state; "
@@ -364,7 +373,7 @@ MUST_HIT = {
     "C01": {"swap.crosses_a_tick": 5, "swap.steps>=2": 5, "liq.decrease_to_zero": 20, "liq.deinitializes_a_tick": 20, "liq.bound_shared_with_other_position": 20,
             "collect_fees.nonzero": 10, "collect_protocol_fees.nonzero": 3, "swap.exact_out": 10, "liq.price_below_range": 20, "liq.price_above_range": 20},
     "C03": {"swap.explicit_limit": 30, "swap.uses_less_than_specified": 20, "swap.threshold_equals_realised": 20, "swap.exact_out": 20, "twohop.exact_out": 5,
-            "twohop.explicit_limit": 5, "twohop.mixed_direction": 5, "swap.full_range_only_pool": 5},
+            "twohop.explicit_limit": 5, "twohop.mixed_direction": 5, "swap.full_range_only_pool": 5, "refused.swap_limit_on_wrong_side_inside_current_tick": 10},
     "C05": {"swap.crosses_a_tick.a_to_b": 5, "swap.crosses_a_tick.b_to_a": 5, "liq.initializes_a_tick": 20, "liq.deinitializes_a_tick": 20,
             "liq.same_range_as_other_position": 10, "liq.dynamic_tick_array": 20, "liq.fixed_tick_array": 20, "liq.tick_net_becomes_zero_but_stays_initialized": 3},
     "C06": {"swap.steps>=2": 10, "swap.step_with_zero_liquidity": 5, "swap.protocol_rate_zero": 10, "collect_protocol_fees.nonzero": 3, "swap.step_stops_short_of_target": 20,
